@@ -1,6 +1,7 @@
 // out-of-order / duplicate insertion stream (included into c15.rs)
 
 /// What happened when a non-increasing key was offered.
+#[allow(dead_code)]
 enum Offer {
     RejectedErr(String),
     RejectedPanic(String),
